@@ -410,6 +410,7 @@ Proof.
       by (apply filter_idx_forall; auto).
     rewrite Forall_forall in WG. specialize (WG r Hr). specialize (HB i Hi).
     destruct (nth_error r i) eqn:EN; [reflexivity|]. apply nth_error_None in EN. lia. }
+  destruct (scan_fails csc csc w rows); [cbn; auto with c33|].
   rewrite NP, andb_false_r.
   destruct (rebuild_after_set_rows s tn csc rows' A EL WD') as [l' [HL HR]]. cbn zeta in HR.
   rewrite HR. cbn [fst snd]. split; auto with c33.
